@@ -180,7 +180,6 @@ def probe_binop(op, ty, va, vb):
 def expr_key(prog, args):
     """Locus inside an expression: the first sub-expression (post-order over the real AST of the text) whose single operator already
     computes a wrong value on the operand values CPython sees there.  -> key or None (then it is the composition that is wrong)."""
-    from vf.gen import pygen
     ty = prog["ty"]
     tree = ast.parse(prog["src"])
     fdef = [n for n in tree.body if n.name == "f"][0]
@@ -239,8 +238,16 @@ def mechanism(prog):
     if fam == "E":
         return "expr/call" if "call" in feat else "expr"
     loop = [t for t in feat if t.split("/")[0] in ("for1", "for2", "while")]
+    inner = [t for t in feat if t.endswith("-inner")]
+    outer_for = bool(loop) and loop[0].startswith("for")
+    inner_for = bool(inner) and inner[0].startswith("for")
+    # control flow inside the body of a `for` (wherever that loop sits) is one mechanism: gen_for feeds the loop phi from the first
+    # body block, and `continue` targets the test block without passing the increment
+    if (outer_for and "continue" in feat) or (inner_for and "inner-continue" in feat):
+        return "for/continue"
+    if (outer_for and ("break" in feat or "nested" in feat)) or (inner_for and "inner-break" in feat):
+        return "for/nested-phi"
     if not loop:
-        inner = [t for t in feat if t.endswith("-inner")]
         if inner:
             return "if/nested-" + ("for" if inner[0].startswith("for") else "while")
         if "recursion" in feat:
@@ -248,16 +255,12 @@ def mechanism(prog):
         if "call" in feat:
             return "if/call"
         return "if/nested-if" if "nested" in feat else "if"
-    outer = "for" if loop[0].startswith("for") else "while"
+    outer = "for" if outer_for else "while"
     if "continue" in feat:
         return outer + "/continue"
-    if outer == "for" and ("break" in feat or "nested" in feat):
-        # gen_for feeds the loop phi from the first body block: any control flow in the body is the same mechanism
-        return "for/nested-phi"
     if "break" in feat:
         return outer + "/break"
     if "nested" in feat:
-        inner = [t for t in feat if t.endswith("-inner")]
         return outer + "/nested-" + (("for" if inner[0].startswith("for") else "while") if inner else "if")
     if "call" in feat:
         return outer + "/call"
@@ -265,13 +268,14 @@ def mechanism(prog):
 
 
 def locus(prog, args, kind):
-    """kind: 'value' | 'ir-undefined' | 'diverges' | 'frontend-crash'"""
+    """kind: 'value' | 'ir-undefined' | 'diverges' | 'frontend-crash/<exception type>'"""
     ty = prog["ty"]
     fam = prog["fam"]
-    if fam in ("E", "A") and kind != "frontend-crash" and "tuple" not in prog["feat"]:
+    if fam in ("E", "A") and not kind.startswith("frontend-crash") and "tuple" not in prog["feat"]:
         if fam == "A":
+            from vf.gen import pygen
             node = [n for n in ast.walk(ast.parse(prog["src"])) if isinstance(n, ast.AugAssign)][0]
-            return binop_key("augassign", BINOPS[type(node.op)], ty, args[0], args[1]).rsplit("/", 1 if ty == "int" else 0)[0]
+            return "augassign/%s/%s" % (pygen.OPNAME[BINOPS[type(node.op)]], ty)
         k = expr_key(prog, args)
         if k:
             return k
@@ -325,7 +329,7 @@ def check_program(p, prog, vectors, base=0):
             p.count("frontend_crash_on_function_cpython_never_runs")
             return
         p.count("frontend_crashes")
-        p.violation(locus(prog, runs[0], "frontend-crash"), "%s: python_to_ir raises %s (%s) instead of compiling this function; CPython runs it"
+        p.violation(locus(prog, runs[0], "frontend-crash/" + type(st[1]).__name__), "%s: python_to_ir raises %s (%s) instead of compiling this function; CPython runs it"
                     % (text, type(st[1]).__name__, exc_key("python_to_ir", st[1]).split("/", 2)[2]), dict(wit0, args=list(runs[0])), base)
         return
     m = st[1]
